@@ -239,7 +239,9 @@ func renderFlags(ss []cfgSetting) ([]string, bool) {
 			}
 			args = append(args, "--"+s.flag+"="+v)
 		case bool:
-			args = append(args, fmt.Sprintf("--%s=%v", s.flag, v))
+			// every spelling strconv.ParseBool (pflag, and viper for environment variables) documents
+			sp := map[bool][]string{true: {"true", "True", "TRUE", "t", "T", "1"}, false: {"false", "False", "FALSE", "f", "F", "0"}}[v]
+			args = append(args, fmt.Sprintf("--%s=%s", s.flag, sp[hash64(s.flag+fmt.Sprint(len(args)))%uint64(len(sp))]))
 		case time.Duration:
 			args = append(args, "--"+s.flag+"="+v.String())
 		case []string:
